@@ -174,6 +174,9 @@ pub fn healthy() -> Vec<Probe> {
 pub struct Case {
     pub label: String,
     pub probes: Vec<Probe>,
+    /// what the generator did before this test_timer call: 0 nothing (fresh), 1 a complete test_timer
+    /// on the same probe pattern, 2 one next_u64
+    pub before: u8,
 }
 
 pub fn cases(thorough: bool) -> Vec<Case> {
@@ -196,7 +199,7 @@ pub fn cases(thorough: bool) -> Vec<Case> {
         if let Some(ds) = deltas_for_sum(s) {
             let mut p: Vec<Probe> = (0..100).map(|i| Probe::d(warmup(i))).collect();
             p.extend(ds.into_iter().map(Probe::d));
-            cs.push(Case { label: format!("sum={}", s), probes: p });
+            cs.push(Case { before: 0, label: format!("sum={}", s), probes: p });
         }
     }
     // (a2) the (stuck count, variation sum) grid: s constant-delta probes (stuck) followed by a zig-zag
@@ -237,19 +240,19 @@ pub fn cases(thorough: bool) -> Vec<Case> {
             }
             let mut p: Vec<Probe> = (0..100).map(|i| Probe::d(warmup(i))).collect();
             p.extend(ds.into_iter().map(Probe::d));
-            cs.push(Case { label: format!("grid stuck~{} sum={}", st, target), probes: p });
+            cs.push(Case { before: 0, label: format!("grid stuck~{} sum={}", st, target), probes: p });
         }
     }
     // (b) thresholds on a healthy base
     let base = healthy();
-    cs.push(Case { label: "healthy".into(), probes: base.clone() });
+    cs.push(Case { before: 0, label: "healthy".into(), probes: base.clone() });
     for (kind, d) in [("back5", -5i64), ("back_2^32-700", -((1i64 << 32) - 700)), ("fwd_2^31+777", (1i64 << 31) + 777), ("back_2^31", -(1i64 << 31)), ("fwd_2^32+9", (1i64 << 32) + 9)] {
         for count in [1usize, 3, 4, 5] {
             let mut p = base.clone();
             for j in 0..count {
                 p[150 + 17 * j].d = d;
             }
-            cs.push(Case { label: format!("{}x{}", kind, count), probes: p });
+            cs.push(Case { before: 0, label: format!("{}x{}", kind, count), probes: p });
         }
     }
     for n in 262..=282usize {
@@ -258,12 +261,12 @@ pub fn cases(thorough: bool) -> Vec<Case> {
         for j in 0..n {
             p[100 + j].d = 1003;
         }
-        cs.push(Case { label: format!("const-delta x{}", n), probes: p });
+        cs.push(Case { before: 0, label: format!("const-delta x{}", n), probes: p });
         let mut p = base.clone();
         for j in 0..n {
             p[100 + j].d = 100 * (11 + ((j * j + 3 * j) % 23) as i64);
         }
-        cs.push(Case { label: format!("mult100 x{}", n), probes: p });
+        cs.push(Case { before: 0, label: format!("mult100 x{}", n), probes: p });
     }
     for n in 262..=282usize {
         // the constant delta already starts during the warm-up (the stuck test must start from a blank
@@ -273,7 +276,7 @@ pub fn cases(thorough: bool) -> Vec<Case> {
             for j in start..100 + n {
                 p[j].d = 1001;
             }
-            cs.push(Case { label: format!("const-delta from probe {} x{}", start, n), probes: p });
+            cs.push(Case { before: 0, label: format!("const-delta from probe {} x{}", start, n), probes: p });
         }
         // one delta a at probe 100, then 2a constant: third difference zero at probe 101 only with a blank history
         let mut p = base.clone();
@@ -281,7 +284,7 @@ pub fn cases(thorough: bool) -> Vec<Case> {
         for j in 0..n {
             p[101 + j].d = 2002;
         }
-        cs.push(Case { label: format!("a then 2a x{}", n), probes: p });
+        cs.push(Case { before: 0, label: format!("a then 2a x{}", n), probes: p });
         // multiples of 100 of which three sit on backward (tolerated) probes
         let mut p = base.clone();
         for j in 0..n {
@@ -290,18 +293,27 @@ pub fn cases(thorough: bool) -> Vec<Case> {
         for j in [5usize, 50, 150] {
             p[100 + j].d = -100 * (7 + j as i64 % 5);
         }
-        cs.push(Case { label: format!("mult100 x{} with 3 backward", n), probes: p });
+        cs.push(Case { before: 0, label: format!("mult100 x{} with 3 backward", n), probes: p });
+        // ties that exist only in wrapping 32-bit arithmetic: deltas alternating x and x + 2^31 have the
+        // constant second difference i32::MIN, hence a zero third difference (stuck) on every probe
+        for x in [0x4000_0000i64, 12_345] {
+            let mut p = base.clone();
+            for j in 0..n {
+                p[100 + j].d = if j % 2 == 0 { x } else { x + (1i64 << 31) };
+            }
+            cs.push(Case { before: 0, label: format!("wrap-tie ({:#x}, +2^31) x{}", x, n), probes: p });
+        }
         // raw differences that are multiples of 100 while the truncated 32-bit deltas are not, and vice versa
         let mut p = base.clone();
         for j in 0..n {
             p[100 + j].d = (1i64 << 32) + 4 + 100 * ((j * j + 5 * j) % 37) as i64;
         }
-        cs.push(Case { label: format!("raw-mult100 (2^32+4+100m) x{}", n), probes: p });
+        cs.push(Case { before: 0, label: format!("raw-mult100 (2^32+4+100m) x{}", n), probes: p });
         let mut p = base.clone();
         for j in 0..n {
             p[100 + j].d = (1i64 << 32) + 100 * (3 + (j * j + 5 * j) % 37) as i64;
         }
-        cs.push(Case { label: format!("trunc-mult100 (2^32+100m) x{}", n), probes: p });
+        cs.push(Case { before: 0, label: format!("trunc-mult100 (2^32+100m) x{}", n), probes: p });
     }
     for i in [0usize, 1, 99, 100, 101, 250, 398, 399] {
         for (kind, f) in [("time=0", 0), ("time2=0", 1), ("delta=0", 2), ("delta=2^32", 3), ("delta=-2^32", 4)] {
@@ -313,8 +325,32 @@ pub fn cases(thorough: bool) -> Vec<Case> {
                 3 => p[i].d = 1i64 << 32,
                 _ => p[i].d = -(1i64 << 32),
             }
-            cs.push(Case { label: format!("{}@{}", kind, i), probes: p });
+            cs.push(Case { before: 0, label: format!("{}@{}", kind, i), probes: p });
         }
+    }
+    // (b2) variation sums around the TinyVariations boundary with 1..3 tolerated backward probes
+    for sum in [590u64, 598, 599, 600, 601, 614, 650, 1199, 1200] {
+        for nb in 1..=3usize {
+            if let Some(ds) = deltas_for_sum(sum) {
+                let mut p: Vec<Probe> = (0..100).map(|i| Probe::d(warmup(i))).collect();
+                p.extend(ds.into_iter().map(Probe::d));
+                for j in 0..nb {
+                    p[140 + 50 * j].d = -70;
+                }
+                cs.push(Case { before: 0, label: format!("sum~{} with {} backward probes of -70", sum, nb), probes: p });
+            }
+        }
+    }
+    // (b3) the threshold scripts again on a generator with a past: after a complete test_timer on the
+    // same pattern, and after one next_u64 (a stuck-test history or other state carried over between
+    // calls would move the counts)
+    {
+        let extra: Vec<Case> = cs
+            .iter()
+            .filter(|c| c.label.starts_with("const-delta") || c.label.starts_with("a then 2a") || c.label.starts_with("mult100") || c.label.starts_with("wrap-tie") || c.label.starts_with("grid") || c.label == "healthy")
+            .flat_map(|c| [1u8, 2].into_iter().map(move |b| Case { before: b, label: format!("{} [after {}]", c.label, if b == 1 { "a previous test_timer" } else { "a next_u64" }), probes: c.probes.clone() }))
+            .collect();
+        cs.extend(extra);
     }
     // (c) periodic patterns of true differences
     let alpha: Vec<i64> = vec![1, 2, 3, 7, 99, 100, 101, 200, 1000, -1, -100, (1 << 31) - 1, -(1 << 31), (1 << 31) + 777, -((1i64 << 32) - 700), (1i64 << 32) + 5, -((1i64 << 32) + 5)];
@@ -328,7 +364,7 @@ pub fn cases(thorough: bool) -> Vec<Case> {
                 idx /= alpha.len();
             }
             let p: Vec<Probe> = (0..400).map(|i| Probe::d(pat[i % period])).collect();
-            cs.push(Case { label: format!("periodic{:?}", pat), probes: p });
+            cs.push(Case { before: 0, label: format!("periodic{:?}", pat), probes: p });
         }
     }
     cs
@@ -343,12 +379,37 @@ pub fn run(reg: &dyn Registry, ctx: &Ctx) -> Outcome {
     let results: Vec<(String, String)> = cs
         .par_iter()
         .map(|c| {
-            let readings = build(&c.probes);
-            let f = facts(&readings);
+            let own = build(&c.probes);
+            let f = facts(&own);
+            // what happened before on this generator
+            let mut readings: Vec<u64> = Vec::new();
+            let prefix_len = match c.before {
+                1 => {
+                    readings.extend_from_slice(&own[..1601]);
+                    1601
+                }
+                2 => {
+                    let pre = crate::jitter_env::raw_readings(7, crate::jitter_env::readings_per_word(64));
+                    readings.extend(pre.iter().map(|t| t + (1 << 40)));
+                    readings.len()
+                }
+                _ => 0,
+            };
+            readings.extend_from_slice(&own);
             let script = TimerScript::new(readings.clone());
             let mut g = reg.jitter(script.clone());
+            if c.before == 1 {
+                let _ = guarded(|| g.jitter().unwrap().test_timer());
+            } else if c.before == 2 {
+                let _ = guarded(|| g.next_u64());
+            }
+            if script.consumed() != prefix_len {
+                // the earlier call did not consume what the documented schedule says (early return of a failing
+                // test_timer): re-align the cursor on the script of the call under test
+                script.pos.store(prefix_len, std::sync::atomic::Ordering::Relaxed);
+            }
             let r = guarded(|| g.jitter().unwrap().test_timer());
-            let consumed = script.consumed();
+            let consumed = script.consumed() - prefix_len;
             ctx.add("transitions", consumed as u64);
             let replay = || json!({"kind":"jitter-test-timer","label":c.label,"probe_differences":c.probes.iter().map(|p| p.d).collect::<Vec<_>>(),"zero_time":c.probes.iter().enumerate().filter(|(_,p)| p.zero_time).map(|(i,_)| i).collect::<Vec<_>>(),"zero_time2":c.probes.iter().enumerate().filter(|(_,p)| p.zero_time2).map(|(i,_)| i).collect::<Vec<_>>(),"facts":format!("{:?}", f)});
             let verdict: String;
